@@ -164,6 +164,21 @@ pub fn run_bb(args: &Args) {
             }
         }
     }
+    // large masks cannot be enumerated to the end: the first subsets of the full board, of co-singletons and of dense masks
+    sh.next_history();
+    {
+        let mut big: Vec<BitBoard> = vec![BitBoard::FULL, !Square::A1.bitboard(), !Square::H8.bitboard(), BitBoard::FULL - Rank::First.bitboard()];
+        for _ in 0..args.num("big-masks", 6) {
+            big.push(BitBoard(rng.next() | rng.next() | rng.next()));
+        }
+        for m in big {
+            let head = guard(|| m.iter_subsets().take(70).map(jbb).collect::<Vec<_>>());
+            match head {
+                Some(v) => sh.emit("bb_subsets_head", &format!("\"a\":{},\"k\":\"ok\",\"head\":[{}]", jbb(m), v.join(","))),
+                None => sh.emit("bb_subsets_head", &format!("\"a\":{},\"k\":\"panic\",\"head\":[]", jbb(m))),
+            }
+        }
+    }
     // named constants and File/Rank sets
     sh.next_history();
     let files: Vec<String> = File::ALL.iter().map(|&f| jbb(f.bitboard())).collect();
